@@ -2,7 +2,7 @@
 //vp:pkg ./model/textparse
 //vp:roots ./util/convertnhcb ./model/histogram ./model/labels ./model/exemplar internal/stringslite github.com/prometheus/common/model
 //vp:budget wall_s=600
-//vp:bounds NHCBParser collect/emit state machine (Next, Series, Histogram, Labels, StartTimestamp, handleClassicHistogramSeries, processNHCB) over a scripted inner parser: a TYPE line, then 1..2 label sets of one classic histogram family, each exposing bucket{le=1}, bucket{le=+Inf}, _count, _sum (concrete small cumulative counts), an optional float series of another family in between or at the end; per label set an explicit timestamp that is absent or any int64, a start timestamp that is any int64, the sum any float64 bit pattern, optionally one exemplar per bucket series (arbitrary value and timestamp); with and without keep-classic; optionally the first label set is preceded by its exponential native histogram (its classic series then pass through and no custom-bucket histogram is made for it); optionally the first of two label sets is not cumulative (no histogram for it; the following one must be unaffected)
+//vp:bounds NHCBParser collect/emit state machine (Next, Series, Histogram, Labels, StartTimestamp, handleClassicHistogramSeries, processNHCB) over a scripted inner parser: a TYPE line, then 1..2 label sets of one classic histogram family, each exposing bucket{le=1}, bucket{le=+Inf}, _count, _sum (concrete small cumulative counts; the second label set optionally without _count or with non-integer counts), an optional float series of another family in between or at the end; per label set an explicit timestamp that is absent or any int64, a start timestamp that is any int64, the sum any float64 bit pattern, optionally one exemplar per bucket series (arbitrary value and timestamp); with and without keep-classic; optionally the first label set is preceded by its exponential native histogram (its classic series then pass through and no custom-bucket histogram is made for it); optionally the first of two label sets is not cumulative (no histogram for it; the following one must be unaffected)
 //vp:assume the inner parser is a list-backed script obeying the Parser contract (this is what the text, OpenMetrics and protobuf parsers present); all series of one label set carry the same timestamp (as one exposition does)
 package textparse
 
@@ -72,6 +72,7 @@ type vpXOut struct {
 	v    float64
 	st   int64
 	h    *histogram.Histogram
+	fh   *histogram.FloatHistogram
 	ex   []exemplar.Exemplar
 }
 
@@ -110,6 +111,11 @@ func vpH_C36_nhcb_parser_emit() {
 		c2  float64
 		x   string
 		ex  []exemplar.Exemplar
+		noCount, isFloat bool
+	}
+	lastVariant := 0 // 0 as the others, 1 without a _count series, 2 with non-integer bucket counts
+	if nsets == 2 {
+		lastVariant = vpShape("secondSetVariant", 0, 2)
 	}
 	sets := make([]set, nsets)
 	for k := range sets {
@@ -126,6 +132,13 @@ func vpH_C36_nhcb_parser_emit() {
 		if broken && k == 0 {
 			s.c1 = 7 // le=1 bucket above the +Inf bucket: conversion must fail
 		}
+		if k == 1 && lastVariant == 1 {
+			s.noCount = true
+		}
+		if k == 1 && lastVariant == 2 {
+			s.isFloat = true
+			s.c1, s.c2 = 1.5, 5.5
+		}
 		mk := func(name string, extra ...string) labels.Labels {
 			return labels.FromStrings(append([]string{"__name__", name, "x", s.x}, extra...)...)
 		}
@@ -141,10 +154,11 @@ func vpH_C36_nhcb_parser_emit() {
 		}
 		script = append(script,
 			vpXEnt{kind: EntrySeries, lset: mk("h_bucket", "le", "1"), ts: s.ts, v: s.c1, st: s.st, ex: ex1},
-			vpXEnt{kind: EntrySeries, lset: mk("h_bucket", "le", "+Inf"), ts: s.ts, v: s.c2, st: s.st, ex: ex2},
-			vpXEnt{kind: EntrySeries, lset: mk("h_count"), ts: s.ts, v: s.c2, st: s.st},
-			vpXEnt{kind: EntrySeries, lset: mk("h_sum"), ts: s.ts, v: s.sum, st: s.st},
-		)
+			vpXEnt{kind: EntrySeries, lset: mk("h_bucket", "le", "+Inf"), ts: s.ts, v: s.c2, st: s.st, ex: ex2})
+		if !s.noCount {
+			script = append(script, vpXEnt{kind: EntrySeries, lset: mk("h_count"), ts: s.ts, v: s.c2, st: s.st})
+		}
+		script = append(script, vpXEnt{kind: EntrySeries, lset: mk("h_sum"), ts: s.ts, v: s.sum, st: s.st})
 		if (other == 1 && k == 0) || (other == 2 && k == nsets-1) {
 			var ots *int64
 			if vpBool() {
@@ -177,9 +191,8 @@ func vpH_C36_nhcb_parser_emit() {
 			p.Labels(&o.lset)
 			o.st = p.StartTimestamp()
 		case EntryHistogram:
-			var fh *histogram.FloatHistogram
-			_, o.ts, o.h, fh = p.Histogram()
-			vpAssert(fh == nil && o.h != nil, "integer counts give an integer histogram")
+			_, o.ts, o.h, o.fh = p.Histogram()
+			vpAssert((o.h == nil) != (o.fh == nil), "exactly one of the integer and the float histogram is set")
 			p.Labels(&o.lset)
 			o.st = p.StartTimestamp()
 		}
@@ -246,16 +259,27 @@ func vpH_C36_nhcb_parser_emit() {
 				return
 			}
 			vpAssert(o.kind == EntryHistogram, "one custom-bucket histogram per classic histogram")
-			if o.kind != EntryHistogram || o.h == nil {
+			if o.kind != EntryHistogram {
+				return
+			}
+			vpAssert((o.fh != nil) == s.isFloat && (o.h != nil) == !s.isFloat, "integer counts give an integer histogram, non-integer counts a float histogram")
+			if (o.fh != nil) != s.isFloat || (o.h != nil) == s.isFloat {
 				return
 			}
 			vpAssert(labels.Equal(o.lset, labels.FromStrings("__name__", "h", "x", s.x)), "histogram labels")
 			vpAssert(vpXTsEq(o.ts, s.ts), "histogram carries the timestamp of its classic series")
 			vpAssert(o.st == s.st, "histogram carries the start timestamp of its classic series")
-			vpAssert(o.h.Count == uint64(s.c2) && math.Float64bits(o.h.Sum) == math.Float64bits(s.sum), "count and sum")
-			vpAssert(len(o.h.CustomValues) == 1 && o.h.CustomValues[0] == 1, "finite upper bounds become the custom bounds")
+			if s.isFloat {
+				vpAssert(o.fh.Count == s.c2 && math.Float64bits(o.fh.Sum) == math.Float64bits(s.sum), "count and sum")
+				vpAssert(len(o.fh.CustomValues) == 1 && o.fh.CustomValues[0] == 1, "finite upper bounds become the custom bounds")
+				vpAssert(len(o.fh.PositiveBuckets) == 2 && o.fh.PositiveBuckets[0] == s.c1 && o.fh.PositiveBuckets[1] == s.c2-s.c1, "de-cumulated bucket counts")
+			} else {
+				vpAssert(o.h.Count == uint64(s.c2) && math.Float64bits(o.h.Sum) == math.Float64bits(s.sum), "count and sum")
+				vpAssert(len(o.h.CustomValues) == 1 && o.h.CustomValues[0] == 1, "finite upper bounds become the custom bounds")
+				vpAssert(len(o.h.PositiveBuckets) == 2 && o.h.PositiveBuckets[0] == int64(s.c1) && o.h.PositiveBuckets[0]+o.h.PositiveBuckets[1] == int64(s.c2-s.c1), "de-cumulated bucket counts")
+				vpObserve("count", o.h.Count)
+			}
 			vpAssert(vpXExEq(o.ex, s.ex), "histogram carries the exemplars of its classic series")
-			vpObserve("count", o.h.Count)
 		}
 	}
 	vpAssert(j == len(out), "nothing else is emitted")
